@@ -207,6 +207,25 @@ def shape(doc):
     return tuple(len(ch.get('files', ())) for ch in doc.get('changes', ()))
 
 
+def blank_lines_style(doc, rng):
+    """For the "unpadded blank lines" liberty of foreign producers: give
+    every preamble the same indent and make some of them start with / consist
+    of blank lines only (content shorter than the declared indent)."""
+    indent = rng.choice([2, 4, 4, 8])
+    first = True
+    for kind, sec, inh in iter_content(doc):
+        if kind != 'preamble':
+            continue
+        sec['indent'] = indent
+        r = rng.random()
+        if first or r < 0.3:
+            sec['text'] = rng.choice(['\n', '\n\n', '\n'])
+            sec['line_endings'] = 'unix'
+        elif r < 0.7:
+            sec['text'] = 'para one\n\npara two\n\n\n' + sec['text']
+        first = False
+
+
 # ------------------------------------------------------------------ exotic
 # Argument objects that ARE what the API asks for (a str, bytes, int, dict)
 # without being instances of the exact built-in class: subclass instances
